@@ -118,7 +118,9 @@ CHECKS = {
          "most once and - once n data were delivered - exactly once, every member told to stop exactly once or ended by itself; take.rs "
          "before fix 7f77d2f is refuted. Likewise take behind combine! (ThreadsTakeCombine.v: at most n complete tuples of sent values, "
          "sink ended exactly once, every member told to stop exactly once), and take alone at the granularity of every access "
-         "(Inv_threads_take_fine.v).",
+         "(Inv_threads_take_fine.v). take behind merge! with every cell access a step (ThreadsTakeMergeFine.v) exposed the "
+         "recorded known finding KF4 (a datum overtaking the first greeter's Handshake makes take panic); the model has it, the theorems "
+         "hold outside that class.",
          "Coq interleaving model + scheduler-controlled differential test"),
  "C20": ("translation_validation", "Coq: a model of the call!/trace!/instrument! macros of src/utils/mod.rs (Tracing.v) - if the macro arguments "
          "after the format string are pure, the three builds (feature off; on without subscriber; on with a TRACE subscriber) perform the "
